@@ -323,6 +323,45 @@ func catalogue(b *descriptorpb.FileDescriptorProto, syn univ.Syntax) []tcase {
 		M(p).Field = append(M(p).Field, &descriptorpb.FieldDescriptorProto{Name: proto.String("ps"), Number: proto.Int32(42), Type: descriptorpb.FieldDescriptorProto_TYPE_STRING.Enum(), Label: descriptorpb.FieldDescriptorProto_LABEL_REPEATED.Enum(), JsonName: proto.String("ps"), Options: &descriptorpb.FieldOptions{Packed: proto.Bool(true)}})
 		return syn == univ.Proto2 || syn == univ.Proto3
 	})
+	// packed on every kind of repeated field that cannot be packed, with the
+	// field's type spelled out or left to be resolved from type_name, as a
+	// field and as an extension
+	for _, k := range []struct {
+		name     string
+		typ      *descriptorpb.FieldDescriptorProto_Type
+		typeName string
+	}{
+		{"bytes", descriptorpb.FieldDescriptorProto_TYPE_BYTES.Enum(), ""},
+		{"message", descriptorpb.FieldDescriptorProto_TYPE_MESSAGE.Enum(), "Sub"},
+		{"message (type left to type_name)", nil, "Sub"},
+	} {
+		k := k
+		for _, asExt := range []bool{false, true} {
+			asExt := asExt
+			where := "field"
+			if asExt {
+				where = "extension"
+			}
+			add("packed on a repeated "+k.name+" "+where, func(p *descriptorpb.FileDescriptorProto) bool {
+				f := &descriptorpb.FieldDescriptorProto{Name: proto.String("pk"), Number: proto.Int32(44), Type: k.typ, Label: descriptorpb.FieldDescriptorProto_LABEL_REPEATED.Enum(), JsonName: proto.String("pk"), Options: &descriptorpb.FieldOptions{Packed: proto.Bool(true)}}
+				if k.typeName != "" {
+					f.TypeName = proto.String("." + p.GetPackage() + "." + k.typeName)
+				}
+				if asExt {
+					if syn != univ.Proto2 {
+						return false
+					}
+					f.Number = proto.Int32(2044)
+					f.Extendee = proto.String("." + p.GetPackage() + ".M")
+					f.JsonName = nil
+					p.Extension = append(p.Extension, f)
+					return true
+				}
+				M(p).Field = append(M(p).Field, f)
+				return syn == univ.Proto2 || syn == univ.Proto3
+			})
+		}
+	}
 	add("packed on a singular field", func(p *descriptorpb.FileDescriptorProto) bool {
 		M(p).Field[0].Options = &descriptorpb.FieldOptions{Packed: proto.Bool(true)}
 		return syn == univ.Proto2 || syn == univ.Proto3
